@@ -1,0 +1,12 @@
+//go:build verif
+
+package config
+
+// This file is only compiled with the "verif" build tag. It gives external
+// verification harnesses the observation points that in-package tests have.
+
+// VerifSetConfigFile sets the path of the configuration file ("" disables persistence).
+func VerifSetConfigFile(path string) { configFilePath = path }
+
+// VerifLoadConfig loads the configuration file into the user layer.
+func VerifLoadConfig(requireValidConfig bool) error { return loadConfig(requireValidConfig) }
